@@ -340,8 +340,10 @@ CONST_POOLS = {
     "bin": [{"t": "bin", "s": x} for x in ("AA==", "aa==", "AQIDBA==", "aGVsbG8=", "SEtMTQ==", "aGtsbQ==")],
     "ts": [IP.ts(0), IP.ts(1), IP.ts(86400)],
     "bool": [{"t": "bool", "s": "true"}, {"t": "bool", "s": "false"}],
-    "int": [IP.I(0), IP.I(1), IP.I(16909060), IP.I(2130706433)],
-    "float": [{"t": "float", "s": x} for x in ("1.0", "0.5", "16909060.0")],
+    # (integers beyond 2^53: neighbours that round to the same double are still different numbers)
+    "int": [IP.I(0), IP.I(1), IP.I(16909060), IP.I(2130706433), {"t": "bigint", "s": "9007199254740992"}, {"t": "bigint", "s": "9007199254740993"},
+            {"t": "bigint", "s": "9223372036854775807"}, {"t": "bigint", "s": "9223372036854775806"}],
+    "float": [{"t": "float", "s": x} for x in ("1.0", "0.5", "16909060.0", "9007199254740992.0")],
     "str": [{"t": "str", "u": IP.units(x)} for x in ("a", "A", "1.2.3.4", "01020304", "HKLM\\a", "hklm\\a", "::1")],
 }
 
@@ -353,6 +355,8 @@ def denoted(c):
     t = c["t"]
     if t == "int":
         return ("num", Fraction(c["v"]))
+    if t == "bigint":
+        return ("num", Fraction(int(c["s"])))
     if t == "float":
         return ("num", Fraction(c["s"]))
     if t == "hex":
@@ -475,7 +479,13 @@ def constant_kind_lines(chk, quick):
             text = lambda c: "".join(map(chr, c["u"])) if c["t"] == "str" else str(c.get("s", c.get("v", c.get("us"))))  # noqa
             alike = lambda a, b: text(a).lower() == text(b).lower() or text(a).isdigit() or text(b).isdigit()  # noqa
             ncidr = len([1 for ab in pairs if kind == "str" and typ in ("ipv4-addr", "ipv6-addr") and "/" in text(ab[0])])
-            pairs.sort(key=lambda ab: not (alike(*ab) or ("/" in text(ab[0]) and kind == "str")))
+            def collide(a, b):       # two different numbers with the same image as a double
+                try:
+                    da, db = denoted(a), denoted(b)
+                    return da[0] == db[0] == "num" and da != db and float(da[1]) == float(db[1])
+                except Exception:  # noqa
+                    return False
+            pairs.sort(key=lambda ab: 0 if collide(*ab) else 1 if (alike(*ab) or ("/" in text(ab[0]) and kind == "str")) else 2)
             for c1, c2 in pairs[:(6 if quick else 40) + ncidr]:
                 op = rng.choice(["=", "=", "!=", "IN"])
                 mk = lambda c: {"k": "cmp", "type": typ, "path": copy.deepcopy(steps), "prop": "*", "op": op, "neg": False,  # noqa
